@@ -13,30 +13,31 @@ include!("store_common.rs");
 //@ mem: 20
 //@ covers: any
 //@ unwindset: put_bytes=80; heed::bytes_=260; heed::Table=6; memcmp.0=70; repeat::Repeat=190; Repeat.*try_fold=190; mmap_append=200; read_hex=34; enc_tags=6; c11_store=70
-//@ cbmc: --max-field-sensitivity-array-size 800
+//@ cbmc: --max-field-sensitivity-array-size 1100
 //@ encodes: Store::store_event, Lmdb::mark_naddr_deleted, Lmdb::when_is_naddr_deleted, Addr::try_from_bytes, Store::naddr_is_deleted_asof
-//@ bounds: fresh store; an accepted address deletion of (30023, author, "x") at time 1000 is on record (Lmdb::mark_naddr_deleted, what handle_deletion_event does for an `a` tag); then an event of kind 30023 with d = "x" by the same author and an ARBITRARY created_at t is submitted: it is refused as deleted iff t <= 1000 and stored otherwise; the reported deletion time of the address is 1000 throughout
+//@ bounds: fresh store; an accepted address deletion of (30023, author, "x") at time 4224 = 0x1080 is on record (Lmdb::mark_naddr_deleted, what handle_deletion_event does for an `a` tag); then an event of kind 30023 with d = "x" by the same author and an ARBITRARY created_at t is submitted: it is refused as deleted iff t <= 0x1080 and stored otherwise; the reported deletion time of the address is 4224 throughout
 //@ outside: other kinds, d values, and longer histories
 //@ assumes: heed and mmap-append models; std::fs stubs; Time::now stubbed to an arbitrary instant
 store_harness!(c11_store_after_address_deletion, {
     let store = verif_store();
-    // an accepted address deletion (what handle_deletion_event records for an `a` tag), time 1000
+    // an accepted address deletion (what handle_deletion_event records for an `a` tag), time 4224
     let addr = Addr { kind: Kind::from_u16(30023), author: Pubkey::from_bytes(PK_1), d: vec![b'x'] };
     {
         let mut txn = ok!(store.indexes.write_txn());
-        ok!(store.indexes.mark_naddr_deleted(&mut txn, &addr, Time::from_u64(1000)));
+        ok!(store.indexes.mark_naddr_deleted(&mut txn, &addr, Time::from_u64(0x1080)));
         ok!(txn.commit());
     }
     let when = ok!(store.naddr_is_deleted_asof(&addr));
-    assert!(when == Some(Time::from_u64(1000)));
+    assert!(when == Some(Time::from_u64(0x1080)));
     // the covered / not covered event
-    let t: u64 = kani::any();
+    let lo: u8 = kani::any();
+    let t: u64 = 0x1000 + lo as u64;
     let mut ebuf = [0u8; 200];
     let m = enc_event_img(30023, t, &ID_B, &PK_1, &SIG_0, &[&[1, 1]], b"dx", b"", &mut ebuf);
     let ev = as_event(&ebuf[..m]);
     let o = outcome(store.store_event(ev));
-    kani::cover!(t == 1000);
-    if t <= 1000 {
+    kani::cover!(t == 0x1080);
+    if t <= 0x1080 {
         assert!(o == Outcome::Deleted);
         assert!(!has(&store, &ID_B));
     } else {
@@ -44,7 +45,7 @@ store_harness!(c11_store_after_address_deletion, {
         assert!(has(&store, &ID_B));
     }
     let when2 = ok!(store.naddr_is_deleted_asof(&addr));
-    assert!(when2 == Some(Time::from_u64(1000)));
+    assert!(when2 == Some(Time::from_u64(0x1080)));
     core::mem::forget(addr);
     core::mem::forget(store);
 });
